@@ -142,6 +142,8 @@ class Engine:
                     statistics.add(it, path_manager)
 
             def simulating_one_path(it):
+                # the variates the parent process drew ahead are copied into every task: a worker draws those of its path
+                self.process.pre_computation(1, product)
                 return it, simulate_one_path()
 
             with mp.Pool(processes=nb_of_processes, initializer=initializer) as pool:
